@@ -177,6 +177,11 @@ func join(toks []string, pick func() string) string {
 			if gap == "" && wordLike(toks[i-1]) && wordLike(t) {
 				gap = " "
 			}
+			// a date/time literal is lexed greedily: `@2020` `-` `07` written without a gap is the
+			// single token `@2020-07` (and `@2020-007` is `@2020-00` `7`); keep the tokens apart
+			if gap == "" && strings.HasPrefix(toks[i-1], "@") && t != "" && strings.ContainsRune("+-.:", rune(t[0])) {
+				gap = " "
+			}
 			put(gap)
 		}
 		put(t)
@@ -340,7 +345,7 @@ func synDump(src string) string {
 }
 
 func runC11(c *Ctx) {
-	c.meta.Rule = "random expression trees of depth <= 6 over all 13 precedence levels (invocation, indexer, polarity, multiplicative, additive incl. &, type, union, inequality, equality, membership, and, or/xor, implies), function arguments, indexers, quantities, dates, delimited and keyword identifiers; renderings: minimal parentheses, full parentheses, each with token-gap decorations from {'', ' ', newline, tab, block comment, line comment, doubled}; plus trailing tokens and byte-mutated sources; non-trivial = source with at least one operator; distinct by line"
+	c.meta.Rule = "random expression trees of depth <= 6 over all 13 precedence levels (invocation, indexer, polarity, multiplicative, additive incl. &, type, union, inequality, equality, membership, and, or/xor, implies), function arguments, indexers, quantities, dates, delimited and keyword identifiers; renderings: minimal parentheses, full parentheses, each with token-gap decorations from {'', ' ', newline, tab, block comment, line comment, doubled}; plus trailing tokens, byte-mutated sources and 38 sources in which a type operator is followed by a tighter operator, an indexer or an invocation (ANTLR treats it as a suffix), and 78 sources whose tokens touch (token boundaries); non-trivial = source with at least one operator; distinct by line"
 	n := 500
 	if c.thorough {
 		n = 6000
@@ -354,6 +359,16 @@ func runC11(c *Ctx) {
 		}
 		o := safeEval(func() (system.Collection, error) { return e.Evaluate(input, envVar("v", shared)) })
 		return canonOutcome(o, nil), true
+	}
+	for _, src := range c11Suffix {
+		for _, s := range []string{src, strings.ReplaceAll(src, " ", " /* c */ ")} {
+			c.Emit("syn "+hexs(s), synDump(s), true)
+			c.Count("render:suffix-operator")
+		}
+	}
+	for _, src := range c11Fused {
+		c.Emit("syn "+hexs(src), synDump(src), true)
+		c.Count("render:fused-tokens")
 	}
 	for i := 0; i < n; i++ {
 		tg := &treeGen{r: c.rng, supported: i%2 == 0}
@@ -416,6 +431,16 @@ func runC11(c *Ctx) {
 			}
 		}
 	}
+}
+
+// sources in which a type operator (a suffix in ANTLR's precedence loop) is followed by an
+// operator tighter than it, by an indexer or by an invocation
+var c11Suffix = []string{
+	"x is T * y", "1 + x is T * 2", "x as T[0]", "a = x is T + 1", "1 is Integer + 2", "1 is Integer * 2 + 3", "x is T * 1 is U",
+	"1 + x is T * 2 | 3", "x as T[0].z", "a = x is T * 2 + 1 is U", "x is T.U.V - 1", "1 + 2 * 3 is Integer", "x is T & 'a'", "x is T div 2 mod 3",
+	"x is T | y", "x is T = y", "x is T and y", "x is T in y", "x is T implies y", "-x is T * 2", "x is T - -1", "(x is T) * y", "x is (T) * y",
+	"x is T * y is U * z", "x as T as U", "x is T.where(a)", "x is T.y(1)", "x is T * ", "x is * y", "x is T[", "x is T[1", "x is T * * y", "name.given is System.String & 'x'",
+	"1 > 2 is Boolean", "1 is Integer > 2", "1 is Integer = 2 is Integer", "a or b is T and c", "a is T or b is U",
 }
 
 func validUTF8(s string) bool {
